@@ -55,7 +55,7 @@ MIN_HITS = {
         'mon:finite': 400, 'mon:range': 200, 'mon:member': 200, 'mon:identity': 60, 'mon:unbiased': 80,
         'mon:tern': 100, 'mon:ternbias': 30, 'mon:drive': 40, 'mon:linear': 200, 'mon:errbound': 100,
         'mon:clientkeys': 20, 'mon:rounds': 60, 'mon:bits': 400, 'mon:zerodraw': 15, 'hook:uq': 300, 'hook:tq': 100, 'hook:rot': 200,
-        'class:zero-leaf-drive': 2, 'class:identical-clients': 10, 'class:many-clients': 5, 'class:huge-cohort': 4, 'hit:reshaped-round': 60, 'class:int32-weights-total-above-2^31': 5, 'coords:unbiased-offgrid': 2000,
+        'class:zero-leaf-drive': 2, 'class:identical-clients': 10, 'class:many-clients': 5, 'class:huge-cohort': 4, 'hit:reshaped-round': 60, 'class:int32-weights-total-above-2^31': 5, 'hit:aggregator-round-failed-midway': 30, 'coords:unbiased-offgrid': 2000,
     },
     'thorough': {
         'mon:finite': 4000, 'mon:range': 2000, 'mon:member': 2000, 'mon:identity': 600, 'mon:unbiased': 800,
@@ -949,6 +949,22 @@ def run_agg(ctx, jax, jnp, C):
           state = rr.value
         st = mk(*dims[which])
         K = int(rng.randint(1, 4))
+        if rnd in (1, 4):
+          # a round that FAILS half-way: the caller's client iterable raises after it has handed over one or two clients. The
+          # state is not advanced (no new state was returned); the next ordinary round must account its bits as if nothing happened
+          class _SourceFailed(Exception):
+            pass
+
+          def failing():
+            for j in range(int(rng.randint(1, 3))):
+              yield b'f%d' % j, struct_map(st, lambda s_: jnp.asarray((rng.randn(*s_) * (3.0 ** j)).astype(np.float32))), 1.0
+            raise _SourceFailed('the client source failed')
+
+          try:
+            agg.apply(failing(), state)
+            ctx.count('failed-round-did-not-raise')
+          except _SourceFailed:
+            ctx.count('hit:aggregator-round-failed-midway')
         trees = [struct_map(st, lambda s_: jnp.asarray(rng.randn(*s_).astype(np.float32))) for _ in range(K)]
         sizes = [int(np.asarray(l).size) for l in leaves_of(trees[0])]
         rwit = {**wit, 'round': rnd, 'structure': repr(st), 'clients': K}
